@@ -327,6 +327,48 @@ def _fallback(ctx, f):
               "the learned scores' count is the number of labels == 1 from "
               "update_labels", f"pred_total = {[show(t, 120) for t in pterms]}",
               node=fb_node)
+    # ... summed over every collection: a definition inside a loop over
+    # the collections must add to the running total (not replace it), one
+    # outside a loop must be a sum over them
+    P_NAME = P[1] if P[0] == "var" else None
+    bad_total = []
+    for d in T.var_defs.get(P, []):
+        if d.node is None:
+            continue
+        dt = nrm(T.of_def(d))
+        if not any(isinstance(x, tuple) and x and x[0] == "call"
+                   and x[1] == "mokapot.dataset.update_labels"
+                   for x in walk_term(dt)):
+            continue            # the initial 0
+        loops_ = cfg.enclosing_all(d.node, (ast.For, ast.While))
+        if loops_:
+            st_ = cfg.stmt_of(d.node)
+            additive = (isinstance(st_, ast.AugAssign) and isinstance(
+                st_.op, ast.Add)) or any(
+                isinstance(x, tuple) and len(x) >= 2 and x[0] in (
+                    "var", "rec") and x[1] == P_NAME
+                for x in walk_term(T.of(st_.value) if isinstance(
+                    st_, ast.Assign) else ("const", None)))
+            if not additive:
+                bad_total.append((getattr(d.node, "lineno", "?"),
+                                  "assigned inside the loop over the "
+                                  "collections instead of added"))
+        else:
+            summed = any(isinstance(x, tuple) and x and x[0] == "call"
+                         and x[1] in ("builtins.sum", "numpy.sum")
+                         for x in walk_term(dt)) or any(
+                isinstance(x, tuple) and x and x[0] == "mcall"
+                and x[2] == "sum" and x[1][0] == "comp"
+                for x in walk_term(dt))
+            if not summed:
+                bad_total.append((getattr(d.node, "lineno", "?"),
+                                  "not a sum over the collections"))
+    ctx.check(not bad_total, "C07a-model-count-all-collections", f,
+              "the learned scores' count is the total over all collections "
+              "(the best feature's count is one over all of them too)",
+              f"pred_total (line, problem) = {bad_total}: the comparison "
+              "with the best feature counts only part of the PSMs, so a "
+              "better model loses against the feature", node=fb_node)
     if ul_calls:
         c = ul_calls[0]
         bound = bound_args(prog, c) or {}
